@@ -12,7 +12,7 @@ META = {
              "distinct_nontrivial = distinct (scenario, fault point) pairs injected and reached."),
     "shards": {"quick": 4, "thorough": 16},
     "timeout": {"quick": 1200, "thorough": 5400},
-    "min_evaluations": {"quick": 150, "thorough": 2000},
+    "min_evaluations": {"quick": 150, "thorough": 1500},
     "assumptions": ["faults are exceptions (a killed pool worker hangs multiprocessing itself, outside thejoker)",
                     "os.unlink of the cache file is not a fault point: if removing the file fails it necessarily remains",
                     "inside MultiPool workers only the worker entry points are targeted (per-process call counts are not "
@@ -73,9 +73,10 @@ def run(ctx):
     faults.Boundary.install()
     faults.install(os.path.dirname(thejoker.__file__))
     signal.signal(signal.SIGALRM, _alarm)
-    mine = [s for k, s in enumerate(SCENARIOS) if k % ctx.nshards == ctx.shard]
+    units = [(sc, v) for v in range(1 if ctx.quick() else 3) for sc in SCENARIOS]
+    mine = [u_ for k, u_ in enumerate(units) if k % ctx.nshards == ctx.shard]
     if ctx.replay is not None:
-        mine = [tuple(ctx.replay["case"]["scenario"])]
+        mine = [(tuple(ctx.replay["case"]["scenario"]), int(ctx.replay["case"].get("variant", 0)))]
     userdir = os.path.join(ctx.tmpdir, "user")
     tmpd = os.path.join(ctx.tmpdir, "private_tmp")
     os.makedirs(userdir, exist_ok=True)
@@ -83,11 +84,13 @@ def run(ctx):
     import tempfile
     tempfile.tempdir = tmpd
     os.environ["TMPDIR"] = tmpd
-    for sc in mine:
+    for sc, variant in mine:
         api, kind, pk = sc
-        rng = ctx.rng(SCENARIOS.index(sc))
-        pb = session.make_problem(rng, N=60, profile="moderate", n_offsets=0, poly_trend=int(rng.choice([1, 2])))
-        upath = os.path.join(userdir, "library_%s_%s_%d.hdf5" % (api, kind, pk))
+        rng = ctx.rng(SCENARIOS.index(sc), variant)
+        # variants: other data/prior/library (variant 1 uses two surveys + an offset, variant 2 a bigger library)
+        pb = session.make_problem(rng, N=60 if variant < 2 else 200, profile="moderate", n_offsets=1 if variant == 1 else 0,
+                                  poly_trend=int(rng.choice([1, 2])))
+        upath = os.path.join(userdir, "library_%s_%s_%d_%d.hdf5" % (api, kind, pk, variant))
         pb.lib.write(upath, overwrite=True)
         usha = sha(upath)
         ll_clean = np.asarray(TheJoker(pb.prior).marginal_ln_likelihood(pb.data, pb.lib, in_memory=True), dtype=float)
@@ -124,7 +127,7 @@ def run(ctx):
             return not bad
 
         # ---------------- clean recording run
-        desc0 = dict(scenario=list(sc))
+        desc0 = dict(scenario=list(sc), variant=variant)
         joker, base = make_joker()
         faults.Boundary.reset()
         faults.record()
@@ -168,10 +171,10 @@ def run(ctx):
                 points.append(("py-base", key, 1))
             elif pk == 0 and any(x in fn for x in in_workers) and (not ctx.quick() or "read_batch" == fn):
                 points.append(("py-base", key, 1))
-        ctx.counters["fault_points_%s_%s_%d" % sc] = len(points)
+        ctx.counters["fault_points_%s_%s_%d_v%d" % (sc + (variant,))] = len(points)
         # in MultiPool scenarios, functions that only run inside workers cannot be hit from the parent: detect by `reached`
         for kindp, key, k in points:
-            desc = dict(scenario=list(sc), fault_point=key, invocation=k if not isinstance(k, tuple) else list(k), kind=kindp)
+            desc = dict(scenario=list(sc), variant=variant, fault_point=key, invocation=k if not isinstance(k, tuple) else list(k), kind=kindp)
             joker, base = make_joker()
             faults.Boundary.reset(target=(key, k) if kindp == "boundary" else None)
             faults.State.fired = 0
@@ -206,7 +209,7 @@ def run(ctx):
                     base.close()
                 continue
             ctx.evaluations += 1
-            ctx.distinct.add(repr((sc, key, kindp)))
+            ctx.distinct.add(repr((sc, variant, key, kindp)))
             if returned:
                 ctx.violation("fault-swallowed", "a fault injected at %s (invocation %r) did not reach the caller: the call returned"
                               % (key, k), desc)
